@@ -3,5 +3,8 @@
 pub mod ieee { use vstd::prelude::*; use vstd::std_specs::ops::*; use vstd::std_specs::cmp::*; use core::cmp::Ordering; use super::fdefs::*;
 /// finite x: |x - x| <= 1e-12   (x - x is exactly 0.0)                          kani: finite_self_diff
 pub broadcast axiom fn finite_self_diff(x: f64) ensures finite(x) ==> f_le(s_abs(#[trigger] x.sub_spec(x)), 1e-12f64);
-pub broadcast group ieee_axioms { finite_self_diff }
+/// 1.0 == 1.0 and 0.0 == 0.0 (IEEE comparison of the two literals with themselves)        kani: eq_refl_literals
+#[verifier::allow(broadcast_without_trigger)]
+pub broadcast axiom fn eq_refl_literals() ensures (1.0f64).eq_spec(&1.0f64), (0.0f64).eq_spec(&0.0f64), !(1.0f64).eq_spec(&0.0f64), !(0.0f64).eq_spec(&1.0f64);
+pub broadcast group ieee_axioms { finite_self_diff, eq_refl_literals }
 }
